@@ -555,6 +555,20 @@ def _convert_list_shape(ctx: Ctx, fn: Func) -> tuple[bool, str]:
                 l = g0.ifs[0].left
                 if isinstance(l, ast.NamedExpr) and norm(l.value) == f"cls.convert({g0.target.id})" and norm(c.elt) == l.target.id:
                     return True, "comprehension over cls.convert dropping None"
+        # third idiom: convert every element first, then drop the None results (two comprehensions, the first possibly
+        # held in a local)
+        if len(rets) == 1 and len(rets[0].value.generators) == 1:
+            c = rets[0].value
+            g0 = c.generators[0]
+            inner = g0.iter
+            if isinstance(inner, ast.Name):
+                idefs = [n.value for n in own_nodes(fn.node) if isinstance(n, (ast.Assign, ast.AnnAssign)) and n.value is not None and any(isinstance(t, ast.Name) and t.id == inner.id for t in (n.targets if isinstance(n, ast.Assign) else [n.target]))]
+                inner = idefs[0] if len(idefs) == 1 else inner
+            drops_none = isinstance(g0.target, ast.Name) and norm(c.elt) == g0.target.id and len(g0.ifs) == 1 and norm(g0.ifs[0]) == f"{g0.target.id} is not None" and not g0.is_async
+            if drops_none and isinstance(inner, (ast.ListComp, ast.GeneratorExp)) and len(inner.generators) == 1:
+                g1 = inner.generators[0]
+                if norm(g1.iter) == params[0] and isinstance(g1.target, ast.Name) and not g1.ifs and not g1.is_async and norm(inner.elt) == f"cls.convert({g1.target.id})":
+                    return True, "cls.convert over every element, then the None results dropped"
         return False, "expected one loop over the argument (or a comprehension over cls.convert dropping None)"
     if len(loops) != 1 or not params or norm(loops[0].iter) != params[0] or not isinstance(loops[0].target, ast.Name):
         return False, "expected one loop over the argument"
